@@ -9,6 +9,7 @@ import (
 	"fmt"
 	"strings"
 	"testing"
+	"time"
 
 	"github.com/ozanh/ugo"
 	"pgregory.net/rapid"
@@ -30,16 +31,16 @@ type replayCase struct {
 // ---------------------------------------------------------------- generator
 
 type tg struct {
-	t       *rapid.T
-	tag     int
-	uniq    int
-	nfn     int // number of functions
-	feat    gen.Features
-	budget  int
+	t            *rapid.T
+	tag          int
+	uniq         int
+	nfn          int // number of functions
+	feat         gen.Features
+	budget       int
 	avoidHistory bool
 }
 
-func (g *tg) u(n int, label string) int { return gen.Uniform(g.t, n, label) }
+func (g *tg) u(n int, label string) int       { return gen.Uniform(g.t, n, label) }
 func (g *tg) chance(p int, label string) bool { return g.u(100, label) < p }
 
 func (g *tg) log() gen.Stmt {
@@ -48,12 +49,12 @@ func (g *tg) log() gen.Stmt {
 }
 
 type ctx struct {
-	fn      int  // index of the current function (callees have larger index)
-	loops   int  // loop nesting inside the current function
-	depth   int  // statement nesting
-	tryD    int  // try nesting in the current function
+	fn        int // index of the current function (callees have larger index)
+	loops     int // loop nesting inside the current function
+	depth     int // statement nesting
+	tryD      int // try nesting in the current function
 	inFinally bool
-	loopVar string
+	loopVar   string
 }
 
 func (g *tg) exit(c ctx) gen.Stmt {
@@ -315,7 +316,18 @@ func check(rt interface{ Fatalf(string, ...any) }, rec *ev.Rec, gp *gen.GenProgr
 			return
 		}
 		if got.TimedOut {
-			rec.Inconcl("vm-watchdog")
+			// the reference model finished this program within its step budget; the VM did not within 5 s
+			// (>= 10^4 x the typical run). Confirm alone with a longer budget before calling it non-termination.
+			got2, _, _, _ := prog.RunVM(p, ugo.CompilerOptions{NoOptimize: noopt}, run.Opts{Recover: true, Timeout: 25 * time.Second})
+			if !got2.TimedOut {
+				rec.Inconcl("vm-watchdog-slow")
+				return
+			}
+			what := fmt.Sprintf("the VM (NoOptimize=%v) does not terminate on a program the reference semantics finishes (aborted after 5 s and again after 25 s)\n--- script ---\n%s\nREF: %s", noopt, p.Src, want)
+			if rec.Violation("semantics:vm-does-not-terminate", what, replayCase{Case: p.Case(), NoOptimize: noopt, Expected: want, Got: got2}) {
+				return
+			}
+			rt.Fatalf("%s", what)
 			return
 		}
 		// VM-raised runtime errors: name only; thrown values: name and message
